@@ -28,7 +28,7 @@ prop("C01", "exploration",
      "core/vm and on artela-evm (5 tracer/join-point configurations). Non-trivial = the reference run executed >= 8 "
      "instructions and (entered a nested frame or executed a state-changing opcode); distinct = distinct scenario JSON. Generator additions (shared by C02 and C18): creations followed by an access to the created address whether or not the creation succeeded, init-code sizes around the EIP-170 / EIP-3860 limits, programs that fill the stack to 1024 / 1023 / 1022 items before one more instruction, standard precompile calls with overlapping windows, same-key SSTORE sequences, EVM.Reset between invocations.",
      [{"test": "TestC01", "quick": {"checks": 6000, "shards": 2, "timeout": 600},
-       "thorough": {"checks": 35000, "shards": 16, "timeout": 7200}},
+       "thorough": {"checks": 7500, "shards": 16, "timeout": 7200}},
       {"fuzz": "FuzzC01", "thorough": {"fuzztime": "180s", "timeout": 1800}}])
 
 prop("C02", "exploration",
@@ -39,7 +39,7 @@ prop("C02", "exploration",
      "comparison is repeated per limit. Non-trivial = run contains a dynamic-gas opcode AND a swept limit changed the "
      "outcome w.r.t. the ample-gas run; distinct = distinct scenario JSON (incl. sweep selectors).",
      [{"test": "TestC02", "quick": {"checks": 1200, "shards": 4, "timeout": 600},
-       "thorough": {"checks": 7000, "shards": 16, "timeout": 7200}},
+       "thorough": {"checks": 3000, "shards": 16, "timeout": 7200}},
       {"fuzz": "FuzzC02", "thorough": {"fuzztime": "120s", "timeout": 1800}}])
 
 prop("C18", "exploration",
@@ -51,7 +51,7 @@ prop("C18", "exploration",
      "lookups, start/end and enter/exit must be balanced and LIFO and step depths must match the open frames. "
      "Non-trivial = a nested frame and a fault/revert occurred.",
      [{"test": "TestC18", "quick": {"checks": 2500, "shards": 4, "timeout": 600},
-       "thorough": {"checks": 15000, "shards": 16, "timeout": 7200}},
+       "thorough": {"checks": 6250, "shards": 16, "timeout": 7200}},
       {"fuzz": "FuzzC18", "thorough": {"fuzztime": "120s", "timeout": 1800}}])
 
 prop("C15", "exploration",
@@ -64,7 +64,7 @@ prop("C15", "exploration",
      "re-run on a generated pre-Cancun fork must raise invalid opcode at each of the three bytes. Non-trivial = an "
      "overlapping, memory-expanding MCOPY or a TLOAD of a key restored by a failed frame. One contract in ten is a stack-limit program (TLOAD / TSTORE / MCOPY with 1023 or 1024 items on the stack); a stack error is only accepted with fewer operands than the instruction pops.",
      [{"test": "TestC15", "quick": {"checks": 4000, "shards": 2, "timeout": 600},
-       "thorough": {"checks": 25000, "shards": 16, "timeout": 7200}}])
+       "thorough": {"checks": 5000, "shards": 16, "timeout": 7200}}])
 
 TREE_CASES = ("cases = scenarios from three generators: scripted call trees (2-4 contracts, acyclic call graph plus "
               "re-entrant calls, all four call kinds, CREATE/CREATE2 with init scripts, value transfers, small fixed call gas, "
@@ -79,7 +79,7 @@ prop("C07", "exploration",
      "consistent, every node reachable, and each node's parent = the innermost recorded frame that issued it (from the "
      "event stream). Non-trivial = >= 3 nodes, >= 1 failed node, depth >= 2. 5% of the cases come from the 1024-depth template (with a CREATE variant) and the address-collision template.",
      [{"test": "TestC07", "quick": {"checks": 4000, "shards": 2, "timeout": 600},
-       "thorough": {"checks": 40000, "shards": 16, "timeout": 7200}}])
+       "thorough": {"checks": 5000, "shards": 16, "timeout": 7200}}])
 
 prop("C08", "exploration",
      TREE_CASES + "At every CALL/CREATE/CREATE2 step the recorder copies operands and the argument bytes from memory at that "
@@ -88,7 +88,7 @@ prop("C08", "exploration",
      "RemainingGas, and no further node may exist. Non-trivial = a call whose argument window was overwritten later in "
      "the same frame, or a call refused up front. Recorded fields are compared node by node in creation order also when the links of the tree are broken; depth and collision templates as in C07.",
      [{"test": "TestC08", "quick": {"checks": 4000, "shards": 2, "timeout": 600},
-       "thorough": {"checks": 40000, "shards": 16, "timeout": 7200}}])
+       "thorough": {"checks": 5000, "shards": 16, "timeout": 7200}}])
 
 prop("C05", "exploration",
      "cases = scripted call trees (budget 7 frames, all call kinds, creates, re-entrancy, 35% empty calldata, 40% value "
@@ -101,7 +101,7 @@ prop("C05", "exploration",
      "text, gas left by the callee's last instruction) equals that frame's; a bound no-op Aspect must actually run. "
      "Non-trivial = >= 2 firings with a bound Aspect and (empty calldata or value or a failing pre join point).",
      [{"test": "TestC05", "quick": {"checks": 700, "shards": 4, "timeout": 900},
-       "thorough": {"checks": 4000, "shards": 16, "timeout": 7200}}])
+       "thorough": {"checks": 1750, "shards": 16, "timeout": 7200}}])
 
 prop("C04", "fault_enumeration",
      "cases = scripted call trees (<= 8 frames per entry, Byzantium..Shanghai, 60% of calls carry value, effects before / "
@@ -117,7 +117,7 @@ prop("C04", "fault_enumeration",
      "ancestors; (3) metamorphic: succeeding Aspects / nothing bound == join points off. Non-trivial = a tree with >= 2 "
      "firing positions or a value-carrying frame that failed while its caller continued with a later effect. Trees also contain creations whose init code ends in a rejected deposit (0xEF code, oversize code, deposit gas) and value-carrying, mostly failing calls to standard precompiles.",
      [{"test": "TestC04", "quick": {"checks": 250, "shards": 4, "timeout": 900},
-       "thorough": {"checks": 2000, "shards": 16, "timeout": 7200}}])
+       "thorough": {"checks": 600, "shards": 16, "timeout": 7200}}])
 
 prop("C06", "exploration",
      "cases = scripted call trees (budget 6, 35% of calls with small fixed gas so that Aspects can exhaust it) x real WASM "
@@ -131,7 +131,7 @@ prop("C06", "exploration",
      "frame, leftover gas differs from the run without Aspects by exactly the sum of reported burns. Non-trivial = some "
      "Aspect burned gas and the surrounding frame's gas was observed against it. Each case is also re-checked on variants in which a top-level call is given exactly the gas its pre join point burns, one more, and exactly what the whole frame consumes.",
      [{"test": "TestC06", "quick": {"checks": 600, "shards": 4, "timeout": 900},
-       "thorough": {"checks": 2500, "shards": 16, "timeout": 7200}}])
+       "thorough": {"checks": 1500, "shards": 16, "timeout": 7200}}])
 
 prop("C10", "exploration",
      "cases = scripted call trees (Byzantium..Cancun, all call kinds, creation, re-entrancy, failing frames, 1-3 "
@@ -144,7 +144,7 @@ prop("C10", "exploration",
      "no entry may exist under another index or account. Non-trivial = the same key journaled in >= 2 calls, or under "
      "DELEGATECALL/CALLCODE/creation, or in a frame that failed.",
      [{"test": "TestC10", "quick": {"checks": 6000, "shards": 2, "timeout": 600},
-       "thorough": {"checks": 60000, "shards": 16, "timeout": 7200}}])
+       "thorough": {"checks": 7500, "shards": 16, "timeout": 7200}}])
 
 prop("C13", "exploration",
      "cases = scripted call trees with 65% value-carrying calls (0, 1, more than the balance, self-transfers through "
@@ -155,7 +155,7 @@ prop("C13", "exploration",
      "from-after, to-after restricted to the account with immediate repeats collapsed; no other entry may exist. "
      "Non-trivial = >= 2 transfers incl. a zero-value one, a self-transfer or one in a failed frame. Half of the trees also register and journal storage keys.",
      [{"test": "TestC13", "quick": {"checks": 8000, "shards": 2, "timeout": 600},
-       "thorough": {"checks": 80000, "shards": 16, "timeout": 7200}}])
+       "thorough": {"checks": 10000, "shards": 16, "timeout": 7200}}])
 
 prop("C11", "exploration",
      "cases = histories of 1-60 operations over the exported Tracer API (register top-level key, register nested key under a "
@@ -170,7 +170,7 @@ prop("C11", "exploration",
      "child indices == indices accepted under the node. Conflicting registrations may be refused or aliased, but whatever "
      "is accepted must satisfy I1-I5. Non-trivial = two accepted keys share a slot and a change was accepted in it. Offsets include values that alias a valid one under 8- or 64-bit narrowing; index keys include the empty key and a single zero byte.",
      [{"test": "TestC11", "quick": {"checks": 6000, "shards": 4, "timeout": 600},
-       "thorough": {"checks": 80000, "shards": 16, "timeout": 7200}},
+       "thorough": {"checks": 15000, "shards": 16, "timeout": 7200}},
       {"test": "TestC11Exhaustive", "quick": {"checks": 1, "shards": 1, "timeout": 600},
        "thorough": {"checks": 1, "shards": 1, "timeout": 3000}}])
 
@@ -190,9 +190,9 @@ prop("C19", "exploration",
      "error) is the oracle's input and must equal the decoded tracer result. Non-trivial = >= 2 Aspects on one join point or "
      "a call inside an Aspect. Aspect frames are also compared for identity (from, to, input, aspect id) and the flat result object (presence, gasUsed, output) for EVM and Aspect frames.",
      [{"test": "TestC19", "quick": {"checks": 30000, "shards": 2, "timeout": 600},
-       "thorough": {"checks": 300000, "shards": 16, "timeout": 7200}},
+       "thorough": {"checks": 37500, "shards": 16, "timeout": 7200}},
       {"test": "TestC19Hybrid", "quick": {"checks": 150, "shards": 4, "timeout": 900},
-       "thorough": {"checks": 1500, "shards": 16, "timeout": 7200}}])
+       "thorough": {"checks": 400, "shards": 16, "timeout": 7200}}])
 
 prop("C09", "exploration",
      "cases = one journal key per case, executed as real byte-code (registration opcode VSVJNAL/RSVJNAL, then VVJNAL/VRJNAL, "
@@ -207,7 +207,7 @@ prop("C09", "exploration",
      "fails at that instruction and nothing is recorded; never a panic. Non-trivial = packed field with offset>0 and "
      "0<width<32, string with leading zero byte or length>=31, or an invalid case. A third of the valid cases re-journal the variable after overwriting the slot with alternating contents (A, B, A ...): last recorded value and the whole list of that call are compared.",
      [{"test": "TestC09", "quick": {"checks": 10000, "shards": 2, "timeout": 600},
-       "thorough": {"checks": 100000, "shards": 16, "timeout": 7200}},
+       "thorough": {"checks": 12500, "shards": 16, "timeout": 7200}},
       {"fuzz": "FuzzC09", "thorough": {"fuzztime": "90s", "timeout": 1500}}])
 
 prop("C14", "exploration",
@@ -224,7 +224,7 @@ prop("C14", "exploration",
      "consume exactly 5000 gas, less gas => out of gas and no host call; before Berlin no host call. Non-trivial = payload "
      ">= 128 bytes, a non-CALL kind, or an underpaid call.",
      [{"test": "TestC14", "quick": {"checks": 12000, "shards": 2, "timeout": 600},
-       "thorough": {"checks": 120000, "shards": 16, "timeout": 7200}},
+       "thorough": {"checks": 15000, "shards": 16, "timeout": 7200}},
       {"fuzz": "FuzzC14", "thorough": {"fuzztime": "90s", "timeout": 1500}}])
 
 prop("C12", "exploration",
@@ -243,7 +243,7 @@ prop("C12", "exploration",
      "INVALID in place of the journal instruction must have identical outcome INCLUDING gas and identical world state. "
      "Non-trivial = a journal instruction executed in a nested or static frame, or a malformed case. Malformed operands: fixed list plus systematic mutation of exactly one operand of a well-formed set per role (pointer, offset, size, ids). One case in seven drives the contracts with little gas: a journal instruction that has its fee available must not run out of gas.",
      [{"test": "TestC12", "quick": {"checks": 1500, "shards": 4, "timeout": 900},
-       "thorough": {"checks": 9000, "shards": 16, "timeout": 7200}}])
+       "thorough": {"checks": 3750, "shards": 16, "timeout": 7200}}])
 
 prop("C03", "exploration",
      "cases = five generators, all forks Frontier..Cancun, all six entry points, join points on with and without bound "
@@ -260,7 +260,7 @@ prop("C03", "exploration",
      "instructions beyond 1e5 reads (reported as unbounded work, C20's open finding). Non-trivial = a journal opcode "
      "executed, an Artela precompile reached, or an exceptional halt. Also: boundary storage words 2^k +- d, 1024-depth and address-collision templates, code tails ending in a truncated PUSHn after a taken jump, calldata in buffers of exactly its length.",
      [{"test": "TestC03", "savelast": True, "quick": {"checks": 5000, "shards": 4, "timeout": 900},
-       "thorough": {"checks": 30000, "shards": 16, "timeout": 7200}},
+       "thorough": {"checks": 12500, "shards": 16, "timeout": 7200}},
       {"fuzz": "FuzzC03", "thorough": {"fuzztime": "120s", "timeout": 1500}}])
 
 prop("C20", "exploration",
@@ -276,7 +276,7 @@ prop("C20", "exploration",
      "observed (reported in the evidence). Instructions beyond 2e5 reads are cut off and reported. Non-trivial = a length "
      ">= 2^20 / a large payload, or an instruction that touched >= 2 state entries. Further families: hostile length words in 0x66 payloads with little more than the fee forwarded; histories of one flat-fee journal instruction executed 64..20000 times on new locations (growth law over window means); one JUMP repeated inside init code of up to 1 MiB (bound on the window mean); BLOCKHASH probes with every host block-hash lookup observed (only the 256 most recent blocks may be asked for).",
      [{"test": "TestC20", "quick": {"checks": 1500, "shards": 4, "timeout": 900},
-       "thorough": {"checks": 8000, "shards": 16, "timeout": 7200}}])
+       "thorough": {"checks": 3750, "shards": 16, "timeout": 7200}}])
 
 prop("C16", "exploration",
      "cases = scripted scenarios (Byzantium..Cancun, 1-3 contracts, 2-8 journal blocks each that register several members "
@@ -300,9 +300,9 @@ prop("C16", "exploration",
      "key, value) must be identical in all repetitions. Non-trivial there = an unrelated execution ran in between and T "
      "had >= 2 frames.",
      [{"test": "TestC16", "quick": {"checks": 350, "shards": 8, "timeout": 600},
-       "thorough": {"checks": 3000, "shards": 16, "timeout": 7200}},
+       "thorough": {"checks": 900, "shards": 16, "timeout": 7200}},
       {"test": "TestC16Tx", "quick": {"checks": 600, "shards": 8, "timeout": 600},
-       "thorough": {"checks": 20000, "shards": 16, "timeout": 7200}}])
+       "thorough": {"checks": 3000, "shards": 16, "timeout": 7200}}])
 
 prop("C17", "exploration",
      "cases = 3-10 scenarios per case (always the pair 'London without / with extra EIP-3855 executing PUSH0', plus generated "
@@ -318,7 +318,7 @@ prop("C17", "exploration",
      "the last instruction of its frame. Cross-goroutine variant (30%): another goroutine cancels after a generated number "
      "of observed steps (finite gas bounds the run; only safety is asserted). Non-trivial = >= 2 generated scenarios.",
      [{"test": "TestC17", "savelast": True, "quick": {"checks": 40, "shards": 4, "timeout": 900},
-       "thorough": {"checks": 200, "shards": 16, "timeout": 7200}}], race=True)
+       "thorough": {"checks": 100, "shards": 16, "timeout": 7200}}], race=True)
 
 # ---------------------------------------------------------------------------
 # Text for MANIFEST.json (gen_manifest.py)
